@@ -12,6 +12,9 @@ mod c04;
 #[cfg(all(kani, any(feature = "c01", feature = "c02")))]
 mod ops;
 
+#[cfg(all(kani, any(feature = "c01", feature = "c02")))]
+mod stdlibk;
+
 
 #[cfg(all(kani, feature = "c07"))]
 mod c07;
